@@ -1934,6 +1934,24 @@ pub(crate) fn crash_tags(ps: &ProcessState) -> Vec<String> {
     t
 }
 
+/// how large the lists of the state are (nothing in a report may be capped, sampled or counted in a
+/// narrower integer than the state has entries): the deepest thread, the number of threads
+pub(crate) fn size_tags(ps: &ProcessState) -> Vec<String> {
+    let mut t = Vec::new();
+    let deepest = ps.threads.iter().map(|t| t.frames.len()).max().unwrap_or(0);
+    for lim in [63usize, 256, 1024] {
+        if deepest > lim {
+            t.push(format!("size:thread-with->{lim}-frames"));
+        }
+    }
+    for lim in [63usize, 255] {
+        if ps.threads.len() > lim {
+            t.push(format!("size:>{lim}-threads"));
+        }
+    }
+    t
+}
+
 fn tags_of(r: &Run) -> Vec<String> {
     let ps = &r.ps;
     let mut t = vec![
@@ -1965,6 +1983,7 @@ fn tags_of(r: &Run) -> Vec<String> {
         t.push("hostile-names".into());
     }
     t.extend(crash_tags(ps));
+    t.extend(size_tags(ps));
     for th in &ps.threads {
         for f in &th.frames {
             if TRUST_UNDOC.contains(&trust_doc(&f.trust)) {
@@ -2141,7 +2160,11 @@ pub(crate) fn gen_state(rng: &mut Rng, g: &GenOpts) -> Vec<Sx> {
         mods.push((base, size, name));
     }
     // threads
+    // rarely: MANY threads / VERY deep stacks (stack overflows, runaway recursion): nothing in the report
+    // may be capped, sampled or indexed with a narrower integer than the state has entries
+    let crowd = rng.chance(1, 250);
     let nthreads = match rng.below(6) {
+        _ if crowd => *rng.pick(&[64u64, 255, 256, 257, 300]),
         0 => 0,
         1 => 1,
         _ => rng.range(1, 5),
@@ -2150,6 +2173,8 @@ pub(crate) fn gen_state(rng: &mut Rng, g: &GenOpts) -> Vec<Sx> {
     let mut frame_counts = Vec::new();
     for _ in 0..nthreads {
         let nframes = match rng.below(5) {
+            _ if crowd => rng.below(2),
+            _ if rng.chance(1, 120) => *rng.pick(&[64u64, 100, 127, 128, 129, 255, 256, 257, 511, 512, 513, 1000, 1023, 1024, 1025, 1100]),
             0 => 0,
             1 => 1,
             _ => rng.range(1, 6),
@@ -2460,6 +2485,17 @@ pub(crate) fn procx_case(
 /// memory map chosen so that every branch of the instruction analysis, the guard-page test and
 /// the consistency checks is reachable
 pub(crate) fn gen_procx(rng: &mut Rng) -> Vec<Sx> {
+    gen_procx_with(rng, 0)
+}
+
+/// the same dump, but the crashing thread's stack holds a frame-pointer chain of `links` links (runaway
+/// recursion): `process_minidump` must return, and the report must show, every one of those frames
+pub(crate) fn gen_procx_deep(rng: &mut Rng) -> Vec<Sx> {
+    let links = *rng.pick(&[300u64, 1030, 1500, 1500]);
+    gen_procx_with(rng, links)
+}
+
+fn gen_procx_with(rng: &mut Rng, links: u64) -> Vec<Sx> {
     const DATA: u64 = 0x5000_0000; // readable+writable page; a no-access (guard) page sits below it
     // the crashing instruction sits in the main module, or (1 in 6) where only unloaded modules were
     let in_unloaded = rng.chance(1, 6);
@@ -2467,7 +2503,7 @@ pub(crate) fn gen_procx(rng: &mut Rng) -> Vec<Sx> {
     let RIP: u64 = if in_unloaded { 0x6100_0900 } else { 0x40_0000 };
     const RSP: u64 = 0x7000_0100;
     let os = *rng.pick(&["win", "win", "linux", "mac", "android"]);
-    let cpu = if rng.chance(1, 10) { *rng.pick(&["x86", "arm64"]) } else { "amd64" };
+    let cpu = if links == 0 && rng.chance(1, 10) { *rng.pick(&["x86", "arm64"]) } else { "amd64" };
     let code: Vec<u8> = match rng.below(10) {
         0 => (0..rng.range(1, 15)).map(|_| rng.below(256) as u8).collect(),
         1 => vec![],
@@ -2489,6 +2525,7 @@ pub(crate) fn gen_procx(rng: &mut Rng) -> Vec<Sx> {
         _ => RIP + 0x100,
     };
     let rsp = match rng.below(8) {
+        _ if links > 0 => RSP,
         0 => 0,
         1 => 8,
         2 => DATA - 0x10, // push/call write into the guard page
@@ -2563,7 +2600,15 @@ pub(crate) fn gen_procx(rng: &mut Rng) -> Vec<Sx> {
     let unloaded: Vec<(u64, u64, &str)> = if in_unloaded || rng.chance(1, 3) { vec![(0x6100_0000, 0x1000, "gone.dll"), (0x6100_0800, 0x1000, "gone.dll"), (0x6100_0000, 0x2000, "also gone.dll")] } else { vec![] };
     // stack words: return addresses into the modules / the unloaded modules / nowhere
     let mut stack = Vec::new();
-    if rsp == RSP {
+    if links > 0 {
+        // two words of locals, then `links` frames of the standard %rbp convention: saved frame pointer
+        // (= address of the next link, 16 bytes up) and a return address into the first module
+        stack.extend_from_slice(&[0u8; 16]);
+        for k in 0..links {
+            stack.extend_from_slice(&(RSP + 0x10 + 16 * (k + 1)).to_le_bytes());
+            stack.extend_from_slice(&(RIP + 0x20 + (k % 7)).to_le_bytes());
+        }
+    } else if rsp == RSP {
         for _ in 0..rng.below(8) {
             let w = *rng.pick(&[0u64, RIP + 0x20, 0x6000_0123, 0x6100_0900, 0x1234, u64::MAX]);
             stack.extend_from_slice(&w.to_le_bytes());
@@ -2574,9 +2619,11 @@ pub(crate) fn gen_procx(rng: &mut Rng) -> Vec<Sx> {
         1 => (rng.range(1, 3), rng.below(2), None),
         _ => (0, 0, None),
     };
+    // (a deep stack is of no use on a thread the processor skips as the dump-writing thread)
+    let threads = if links > 0 && threads.2 == Some(threads.0) { (threads.0, threads.1, None) } else { threads };
     procx_case(
         os, cpu, exc,
-        &[("rip", RIP), ("rsp", rsp), ("rbx", rbx), ("rax", rax), ("rcx", rcx), ("rbp", if rng.chance(1, 2) { RSP + 0x10 } else { 0 })],
+        &[("rip", RIP), ("rsp", rsp), ("rbx", rbx), ("rax", rax), ("rcx", rcx), ("rbp", if links > 0 || rng.chance(1, 2) { RSP + 0x10 } else { 0 })],
         &code, &regions, data, lsb.as_deref(), limits.as_deref(), maps.as_deref(), tname.as_deref(), &modules, &unloaded, &stack,
         threads,
     )
@@ -2724,6 +2771,21 @@ pub(crate) fn directed(emit: &mut dyn FnMut(String)) {
         st[4] = req;
         emit(format!("json st {}", sx_line(&st)));
     }
+    // sizes (on every run, whatever the seed): a 1025-frame thread that is also the crashing thread (the
+    // `crashing_thread` copy is as deep), and 257 threads with the crashing thread at index 256 — nothing
+    // may be capped at 1000/1024 entries or counted/indexed in a byte
+    let frame = |i: u64| {
+        L(vec![n(0x1000 + i), none(), L(vec![]), if i % 2 == 0 { s("f") } else { none() }, none(), none(), none(), L(vec![]),
+               tag("frame_pointer"), L(vec![tag("amd64"), n(i), none()])])
+    };
+    let mut st = gen_state(&mut rng, &g);
+    st[5] = L(vec![L(vec![L((0..1025).map(frame).collect()), n(1), none(), none(), tag("ok")])]);
+    st[4] = n(0);
+    emit(format!("json st {}", sx_line(&st)));
+    let mut st = gen_state(&mut rng, &g);
+    st[5] = L((0..257u64).map(|k| L(vec![L(if k == 256 { vec![frame(0), frame(1)] } else { vec![] }), n(k), none(), none(), tag("ok")])).collect());
+    st[4] = n(256);
+    emit(format!("json st {}", sx_line(&st)));
 }
 
 impl Engine for Json {
@@ -2737,11 +2799,13 @@ impl Engine for Json {
          of range; unloaded modules; crash_info with memory_accesses of every MemoryAccessType / guard flag / \
          unknown size, instruction-pointer updates, both adjusted-address kinds, every CrashInconsistency, bit \
          flips; arbitrary soft_errors JSON; deliberate non-well-formed states that must panic in model and code \
-         alike). (2) `json procx …` / `json proc …`: produced by process_minidump from synthesized dumps (crashing \
+         alike; rarely — about 1 thread in 120 — a stack of 64 … 1100 frames, and about 1 state in 250 a crowd of \
+         64 … 300 threads, counted in the distribution as size:…). (2) `json procx …` / `json proc …`: produced by process_minidump from synthesized dumps (crashing \
          instruction from 36 amd64 encodings or random bytes, exception records of Windows/Linux/macOS shape, \
          register values around mapped / guard / null / non-canonical addresses, memory-info regions, \
          lsb-release/limits/maps streams, thread names, modules, overlapping unloaded modules, several threads \
-         with a Breakpad dump thread; MozSoftErrors texts). Compared: print_json(pretty=false) bytes = Lean \
+         with a Breakpad dump thread; a few dumps whose crashing thread's stack is a 300 … 1500-link \
+         frame-pointer chain; MozSoftErrors texts). Compared: print_json(pretty=false) bytes = Lean \
          printJson(alpha(state)) bytes; Lean parser + Conforms + Consistent verdicts on the real bytes; \
          undocumented members and enumeration values; pretty output parses (in Lean and serde_json) to the same \
          value. Oracle on the implementation alone: UTF-8, serde_json parse, counts, frame numbers, \
@@ -2758,7 +2822,8 @@ impl Engine for Json {
               MemoryAccessType x guard x size-known combinations, all 5 CrashInconsistency values (together and \
               alone), adjusted address of each kind, every instruction-pointer-update shape; all 96 \
               BitFlipDetails combinations with the real confidence(); the 36-entry instruction table x {read, \
-              write} access violation through process_minidump"
+              write} access violation through process_minidump; one 1025-frame crashing thread and one state \
+              with 257 threads whose crashing thread has index 256"
             .into())
     }
     fn generate(&self, tier: Tier, rng: &mut Rng, emit: &mut dyn FnMut(String)) {
@@ -2791,6 +2856,13 @@ impl Engine for Json {
             match catch(|| gen_procx(&mut *rng)) {
                 Ok(st) => emit(format!("json {}", sx_line(&st))),
                 Err(e) => eprintln!("generator panic (procx): {e}"),
+            }
+        }
+        // processor path, deep: a 300 … 1500-link frame-pointer chain on the crashing thread's stack
+        for _ in 0..(if tier == Tier::Quick { 4 } else { 16 }) {
+            match catch(|| gen_procx_deep(&mut *rng)) {
+                Ok(st) => emit(format!("json {}", sx_line(&st))),
+                Err(e) => eprintln!("generator panic (procx deep): {e}"),
             }
         }
         let count = if tier == Tier::Quick { 12000 } else { 60000 };
@@ -2911,6 +2983,8 @@ impl Json {
             let extra: Vec<String> = crash_tags(&r.ps).into_iter().map(|t| format!("processor-path/{t}")).collect();
             res.tags.extend(extra);
             res.tags.push(format!("processor-path/frames:{}", r.ps.threads.first().map_or(0, |t| t.frames.len()).min(4)));
+            let extra: Vec<String> = size_tags(&r.ps).into_iter().map(|t| format!("processor-path/{t}")).collect();
+            res.tags.extend(extra);
         }
         if from_processor {
             res.tags.push(format!("processor-path:soft_errors-{}", if r.ps.soft_errors.is_some() { "kept" } else { "dropped" }));
@@ -2950,6 +3024,7 @@ impl Json {
         if budget == 0 {
             return case.to_string();
         }
+        let clock = ShrinkClock::start();
         loop {
             let mut progress = false;
             let paths = collect_paths(&items);
@@ -2957,8 +3032,12 @@ impl Json {
                 if budget == 0 {
                     return render(&items);
                 }
-                for cand in candidates(&items, &path) {
+                for e in edits(&items, &path) {
+                    if clock.expired() {
+                        return render(&items);
+                    }
                     budget -= 1;
+                    let cand = apply_edit(&items, &path, &e);
                     let line = render(&cand);
                     if still_fails(&line) {
                         items = cand;
@@ -3012,46 +3091,103 @@ fn get_mut<'a>(items: &'a mut [Sx], path: &[usize]) -> Option<&'a mut Sx> {
     Some(cur)
 }
 
-pub(crate) fn candidates(items: &[Sx], path: &[usize]) -> Vec<Vec<Sx>> {
+fn get_ref<'a>(items: &'a [Sx], path: &[usize]) -> Option<&'a Sx> {
+    let mut cur = items.get(path[0])?;
+    for &i in &path[1..] {
+        match cur {
+            L(v) => cur = v.get(i)?,
+            _ => return None,
+        }
+    }
+    Some(cur)
+}
+
+/// one shrinking step at a node, described WITHOUT materialising the edited recipe: a thread with 1100
+/// frames has thousands of candidates and every materialised recipe is megabytes
+pub(crate) enum Edit {
+    /// replace the node
+    Put(Sx),
+    /// drop the elements `from..to` of the list at the node
+    Cut(usize, usize),
+}
+
+pub(crate) fn edits(items: &[Sx], path: &[usize]) -> Vec<Edit> {
     let mut out = Vec::new();
-    let mut base = items.to_vec();
-    let Some(node) = get_mut(&mut base, path).map(|n| n.clone()) else {
+    let Some(node) = get_ref(items, path) else {
         return out;
     };
-    let mut with = |repl: Sx| {
-        let mut c = items.to_vec();
-        if let Some(n) = get_mut(&mut c, path) {
-            *n = repl;
-        }
-        out.push(c);
-    };
-    match &node {
+    match node {
         L(v) if !v.is_empty() => {
-            with(L(vec![]));
-            with(none());
+            out.push(Edit::Put(L(vec![])));
+            out.push(Edit::Put(none()));
+            // long lists (deep stacks, crowds of threads): halves, quarters, … before single elements
+            let mut c = v.len() / 2;
+            while c >= 2 {
+                for from in (0..v.len()).step_by(c) {
+                    out.push(Edit::Cut(from, (from + c).min(v.len())));
+                }
+                c /= 2;
+            }
             for i in 0..v.len() {
-                let mut w = v.clone();
-                w.remove(i);
-                with(L(w));
+                out.push(Edit::Cut(i, i + 1));
             }
         }
         A(a) if a.starts_with('s') && a.len() > 1 => {
-            with(A("s".into()));
-            with(none());
+            out.push(Edit::Put(A("s".into())));
+            out.push(Edit::Put(none()));
             if let Some(st) = node.string() {
                 let cs: Vec<char> = st.chars().collect();
                 if cs.len() > 1 {
-                    with(s(&cs[..cs.len() / 2].iter().collect::<String>()));
-                    with(s(&cs[cs.len() / 2..].iter().collect::<String>()));
+                    out.push(Edit::Put(s(&cs[..cs.len() / 2].iter().collect::<String>())));
+                    out.push(Edit::Put(s(&cs[cs.len() / 2..].iter().collect::<String>())));
                 }
             }
         }
         A(a) if a.starts_with('n') && a != "n0" => {
-            with(n(0));
-            with(none());
+            out.push(Edit::Put(n(0)));
+            out.push(Edit::Put(none()));
         }
-        A(a) if a.starts_with('j') => with(none()),
+        A(a) if a.starts_with('j') => out.push(Edit::Put(none())),
         _ => {}
     }
     out
+}
+
+pub(crate) fn apply_edit(items: &[Sx], path: &[usize], e: &Edit) -> Vec<Sx> {
+    let mut c = items.to_vec();
+    if let Some(node) = get_mut(&mut c, path) {
+        match e {
+            Edit::Put(x) => *node = x.clone(),
+            Edit::Cut(from, to) => {
+                if let L(v) = node {
+                    v.drain(*from..(*to).min(v.len()));
+                }
+            }
+        }
+    }
+    c
+}
+
+/// wall-clock allowance of the structural shrinker: per failure, and per process — a failing deep state
+/// costs about a second per candidate (two prints, the oracle, a 2 MB model request)
+pub(crate) struct ShrinkClock {
+    started: std::time::Instant,
+    until: std::time::Instant,
+}
+static SHRINK_SPENT_MS: std::sync::atomic::AtomicU64 = std::sync::atomic::AtomicU64::new(0);
+impl ShrinkClock {
+    pub(crate) fn start() -> ShrinkClock {
+        let spent = SHRINK_SPENT_MS.load(std::sync::atomic::Ordering::Relaxed);
+        let allow = if spent >= 150_000 { 0 } else { 25_000 };
+        let now = std::time::Instant::now();
+        ShrinkClock { started: now, until: now + std::time::Duration::from_millis(allow) }
+    }
+    pub(crate) fn expired(&self) -> bool {
+        std::time::Instant::now() >= self.until
+    }
+}
+impl Drop for ShrinkClock {
+    fn drop(&mut self) {
+        SHRINK_SPENT_MS.fetch_add(self.started.elapsed().as_millis() as u64, std::sync::atomic::Ordering::Relaxed);
+    }
 }
